@@ -174,6 +174,13 @@ func Run(rd *Reader, finish bool, watchdog time.Duration) Obs {
 			if finish {
 				p.Finish(seq)
 			}
+			if o.Items > 3_000_000+10*len(rd.Data) {
+				// a parser that keeps producing items after its input has
+				// ended: same verdict as one that never closes
+				o.Hung = true
+				o.ReadEnds = rd.ReadEnds
+				return o
+			}
 		case <-timer.C:
 			o.Hung = true
 			o.ReadEnds = rd.ReadEnds
